@@ -376,6 +376,11 @@ def parse_dict_header(value: str) -> dict[str, str | None]:
             # key*=charset''value becomes key=value, where value is percent encoded
             # adapted from parse_options_header, without the continuation handling
             key = key[:-1]
+
+            if not key:
+                # *=value has no key, it is not valid
+                continue
+
             match = _charset_value_re.match(value)
 
             if match:
@@ -528,6 +533,11 @@ def parse_options_header(value: str | None) -> tuple[str, dict[str, str]]:
         if pk[-1] == "*":
             # key*=charset''value becomes key=value, where value is percent encoded
             pk = pk[:-1]
+
+            if not pk:
+                # *=value has no key, it is not valid
+                continue
+
             match = _charset_value_re.match(pv)
 
             if match:
